@@ -3,6 +3,7 @@ from __future__ import annotations
 import abc
 import io
 import pathlib
+from collections.abc import Iterable, Iterator
 from dataclasses import dataclass, field
 from typing import Any
 
@@ -219,6 +220,34 @@ class XmlNode(abc.ABC):
         Returns:
             Whether the binding process was successful or not.
         """
+
+
+def delay_end_events(context: Iterable[tuple[str, Any]]) -> Iterator[tuple[str, Any]]:
+    """Yield every end event only after the next event has been pulled.
+
+    Incremental parsers may emit the end event of an element before its
+    tail text is complete, when the tail crosses a read buffer boundary.
+    Once the next event exists, the tail of the previous element is final.
+
+    Args:
+        context: An iterable of event, element tuples
+
+    Yields:
+        The same events, in the same order.
+    """
+    pending = None
+    for event, element in context:
+        if pending is not None:
+            yield pending
+            pending = None
+
+        if event == EventType.END:
+            pending = (event, element)
+        else:
+            yield event, element
+
+    if pending is not None:
+        yield pending
 
 
 class XmlHandler:
